@@ -18,7 +18,7 @@ ASSUMPTIONS = ["numpy/LAPACK eigh is correct", "reference built from the lattice
                "models whose reference spectrum has two levels 1e-10..1e-6 apart are discarded (pomerol decides degeneracy with absolute 1e-8)",
                "pipeline stages lattice..operators that throw are owned by C20/C18/C07/C03/C09/C10 and counted here as class pipeline-exception"]
 CONFIG = {
-    "quick": {"flavours": ["real", "complex"], "shards": 8, "examples": 120, "min_nontrivial": 50, "budget_s": 150},
+    "quick": {"flavours": ["real", "complex"], "shards": 8, "examples": 600, "min_nontrivial": 50, "budget_s": 120},
     "thorough": {"flavours": ["real", "complex"], "shards": 16, "examples": 1500, "min_nontrivial": 1000, "budget_s": 3000},
 }
 REQUIRED_CLASSES = {"quick": ["offdiag-one-block", "degenerate", "complex", "n-or-sz-broken"],
